@@ -3,6 +3,7 @@ import HopModel.Driver.C20
 import HopModel.Driver.C03
 import HopModel.Driver.C01
 import HopModel.Driver.C02
+import HopModel.Driver.C19
 import HopModel.Driver.C13
 import HopModel.Driver.C12
 
@@ -13,6 +14,7 @@ def main (args : List String) : IO UInt32 := do
   | "C03" :: rest => Driver.C03.main rest; return 0
   | "C01" :: rest => Driver.C01.main rest; return 0
   | "C02" :: rest => Driver.C02.main rest; return 0
+  | "C19" :: rest => Driver.C19.main rest; return 0
   | "C13" :: rest => Driver.C13.main rest; return 0
   | "C12" :: rest => Driver.C12.main rest; return 0
   | _ =>
